@@ -1,10 +1,14 @@
 """C05: p-value, statistic and dist mutually consistent -- wrapper over harness/all_rand.py (scripted-tape runs of the unstratified and stratified tests and helpers)."""
 from .. import all_rand as AR
-from ..all_rand import COQ_HEADER, run, to_coq, extra_terms, nontrivial, key, cases, SKIPPED
+from ..all_rand import COQ_HEADER, run, to_coq, extra_terms, nontrivial, key, SKIPPED
 
-RULE = ('all scripted and real-seed runs: p recomputed from the returned dist with exact rational comparisons in the stated direction (ties count), keep_dist twins on identical draws, bounds, len(dist)=reps; functions: two_sample, two_sample_shift, one_sample, corr, spearman_corr, k_sample, bivariate_k_sample, sim_corr, stratified_permutationtest, stratified_two_sample, simulate_ts_dist; non-trivial = simulated values tie with or straddle the observed one')
+RULE = ('all scripted and real-seed runs: p recomputed from the returned dist with exact rational comparisons in the stated direction (ties count), keep_dist twins on identical draws, bounds, len(dist)=reps; functions: two_sample, two_sample_shift, one_sample, corr, spearman_corr, k_sample, bivariate_k_sample, sim_corr, stratified_permutationtest, stratified_two_sample, simulate_ts_dist, sim_npc partial p-values and westfall_young raw p-values (scripted Randomizer); non-trivial = simulated values tie with or straddle the observed one')
 ASSUMPTIONS = [
     "the generator is driven through a scripted subclass of cryptorandom.SHA256 (harness/tape.py): requests are answered lazily and logged; the same answers are replayed for the keep_dist twin",
     "data are exactly representable (small integers times group-size products times powers of two, optional large offsets), so named float statistics are exact; 't'-type statistics are black boxes checked through dist",
     "SHA-256 / Mersenne-Twister output is assumed uniform; condition.argsort() is an oracle input of the model"]
-oracle = AR.filtered_oracle(['p-not-from-dist', 'keepdist-differs', 'keepdist-raises', 'keepdist-draws', 'p-range', 'dist-length', 'tail', 'observed-stat'])
+oracle = AR.filtered_oracle(['p-not-from-dist', 'keepdist-differs', 'keepdist-raises', 'keepdist-draws', 'p-range', 'dist-length', 'tail', 'observed-stat', 'partial-p', 'raw'])
+
+
+def cases(tier, rng, dist):
+    return AR.cases(tier, rng, dist, extra=('npc', 'wy'))
